@@ -8,6 +8,7 @@ import (
 
 	"github.com/Fantom-foundation/lachesis-base/kvdb"
 	"github.com/Fantom-foundation/lachesis-base/kvdb/flushable"
+	"github.com/Fantom-foundation/lachesis-base/kvdb/memorydb"
 
 	"verif/ev"
 	"verif/memdisk"
@@ -136,4 +137,149 @@ func c28PoolFlushAtomic(c *ev.Ctx, caseN int) {
 	c.Count("pool_flushes_watched_by_underlying_readers", int64(steps))
 	c.Count("pool_underlying_reads_during_the_run", atomic.LoadInt64(&pairs))
 	c.Nontrivial(ev.Hash("poolatomic", caseN))
+}
+
+// c28PoolDropsDuringFlush: databases are closed and dropped while the pool is flushing. A drop that arrives during flush N
+// is carried out by a later flush: after everything has stopped and two more flushes went through, no dropped database
+// is left on the disk.
+func c28PoolDropsDuringFlush(c *ev.Ctx, caseN int) {
+	r := c.Rand("pooldrops", caseN)
+	disk := memdisk.New()
+	prod := c28slowProducer{disk.Producer(), time.Duration(30+r.Intn(150)) * time.Microsecond}
+	pool := flushable.NewSyncedPool(prod, []byte("\x00flushid"))
+	main, err := pool.OpenDB("main")
+	if err != nil {
+		panic(err)
+	}
+	if _, err := pool.Initialize([]string{"main"}, nil); err != nil {
+		panic(err)
+	}
+	var wg sync.WaitGroup
+	var flushErr atomic.Value
+	wg.Add(1)
+	go func() {
+		defer wg.Done()
+		for i := 1; i <= 14; i++ {
+			_ = main.Put([]byte("k"), []byte(fmt.Sprint(i)))
+			if err := pool.Flush([]byte{byte(i), byte(caseN), 1}); err != nil {
+				flushErr.Store(err.Error())
+				return
+			}
+		}
+	}()
+	var dropped []string
+	wg.Add(1)
+	seed := r.Int63()
+	go func() {
+		defer wg.Done()
+		rr := c.Rand("pooldrops-dropper", int(seed%1000000))
+		for i := 0; i < 10; i++ {
+			name := fmt.Sprintf("tmp%d", i)
+			db, err := pool.OpenDB(name)
+			if err != nil {
+				return
+			}
+			_ = db.Put([]byte("x"), []byte(name))
+			time.Sleep(time.Duration(rr.Intn(400)) * time.Microsecond) // some of these get flushed to the disk meanwhile
+			_ = db.Close()
+			db.Drop()
+			dropped = append(dropped, name)
+		}
+	}()
+	wg.Wait()
+	if e := flushErr.Load(); e != nil {
+		c.Violation("flush-fails", map[string]interface{}{"case": caseN, "err": e})
+		return
+	}
+	for k := 0; k < 2; k++ {
+		if err := pool.Flush([]byte{byte(100 + k), byte(caseN), 2}); err != nil {
+			c.Violation("flush-fails", map[string]interface{}{"case": caseN, "err": err.Error()})
+			return
+		}
+	}
+	c.Eval(1)
+	left := map[string]bool{}
+	for _, n := range disk.Producer().Names() {
+		left[n] = true
+	}
+	for _, n := range dropped {
+		if left[n] {
+			c.Violation("history-not-linearizable:synced_pool", map[string]interface{}{"case": caseN, "why": fmt.Sprintf("database %s was closed and dropped (while the pool may have been flushing); two complete flushes later it is still on the disk", n), "dropped": dropped, "on_disk": fmt.Sprint(disk.Producer().Names())})
+			return
+		}
+	}
+	c.Count("pool_drops_issued_while_flushes_ran", int64(len(dropped)))
+	c.Nontrivial(ev.Hash("pooldrops", caseN))
+}
+
+// c28BigBatches: a batch is one step, however long it is. Two writers write batches of 600 puts (key i -> the writer's tag of
+// the round); a reader takes snapshots. Every snapshot, and the final state, shows one tag on all keys.
+func c28BigBatches(c *ev.Ctx, caseN int) {
+	store := flushable.Wrap(memorydb.New())
+	const keys = 600
+	key := func(i int) []byte { return []byte(fmt.Sprintf("k%03d", i)) }
+	var stop int32
+	var mu sync.Mutex
+	bad := ""
+	var wg sync.WaitGroup
+	for w := 0; w < 2; w++ {
+		wg.Add(1)
+		go func(w int) {
+			defer wg.Done()
+			for round := 0; round < 12; round++ {
+				b := store.NewBatch()
+				tag := []byte(fmt.Sprintf("w%d-r%02d", w, round))
+				for i := 0; i < keys; i++ {
+					_ = b.Put(key(i), tag)
+				}
+				_ = b.Write()
+			}
+		}(w)
+	}
+	var rwg sync.WaitGroup
+	rwg.Add(1)
+	var snaps int64
+	go func() {
+		defer rwg.Done()
+		for atomic.LoadInt32(&stop) == 0 {
+			sn, err := store.GetSnapshot()
+			if err != nil {
+				continue
+			}
+			var first []byte
+			for _, i := range []int{0, 1, 255, 256, 511, 512, 513, 599} {
+				v, _ := sn.Get(key(i))
+				if i == 0 {
+					first = v
+				} else if string(v) != string(first) {
+					mu.Lock()
+					if bad == "" {
+						bad = fmt.Sprintf("a snapshot shows %q at key 0 and %q at key %d: it caught a batch half-written", first, v, i)
+					}
+					mu.Unlock()
+				}
+			}
+			sn.Release()
+			atomic.AddInt64(&snaps, 1)
+		}
+	}()
+	wg.Wait()
+	atomic.StoreInt32(&stop, 1)
+	rwg.Wait()
+	c.Eval(1)
+	if bad == "" {
+		first, _ := store.Get(key(0))
+		for i := 1; i < keys; i++ {
+			if v, _ := store.Get(key(i)); string(v) != string(first) {
+				bad = fmt.Sprintf("after two writers wrote whole batches, key 0 holds %q and key %d holds %q", first, i, v)
+				break
+			}
+		}
+	}
+	if bad != "" {
+		c.Violation("history-not-linearizable:flushable", map[string]interface{}{"case": caseN, "why": bad, "scenario": "two writers, batches of 600 puts each, one snapshot reader"})
+		return
+	}
+	c.Count("big_batch_snapshots_checked", atomic.LoadInt64(&snaps))
+	c.Nontrivial(ev.Hash("bigbatch", caseN))
 }
